@@ -264,6 +264,24 @@ def gen_deck(rng, flavour=None):
             if 'u=' in [c[1] for c in cells if c[0] == base_id][0]:
                 but = rng.choice(['imp:n=1', f'trcl=({fnum(rng)} 0 0)'])
             cells.append([cid, f'{cid} like {base_id} but {but}'])
+    # boundary conditions of BOTH kinds (reflecting *n and white +n) on two
+    # plain surfaces that bound a converted cell: the BOUNDARY_CONDITION block
+    # then holds two kinds of entries (strings)
+    plain = [sid for sid in sids
+             if surf_kind[sid] in ('px', 'py', 'pz', 'p', 'so', 's', 'sx',
+                                   'cz', 'c/z', 'cx')]
+    if len(plain) >= 2 and rng.random() < 0.3:
+        tags.append('bc-both')
+        a, b = rng.sample(plain, 2)
+        for sid, mark in ((a, '*'), (b, '+')):
+            line = surf_lines[sid - 1].lstrip('*+')
+            surf_lines[sid - 1] = mark + line
+        for other in plain:
+            if other not in (a, b):
+                surf_lines[other - 1] = surf_lines[other - 1].lstrip('*+')
+        cid += 1
+        cells.append([cid, f'{cid} 0 {rng.choice(["-", ""])}{a} '
+                      f'{rng.choice(["-", ""])}{b} imp:n=1'])
     # outside world
     cid += 1
     cells.append([cid, f'{cid} 0 {rng.choice(sids)} imp:n=0'])
@@ -552,6 +570,28 @@ REGRESSION += [
 3 k/x 0 0 0 2 1
 8 so 30
 
+""", []),
+]
+
+
+REGRESSION += [
+    # both kinds of boundary condition on surfaces of converted cells, two
+    # materials with two densities each: everything in the written file that
+    # is keyed by strings
+    ('bc-both-kinds', """boundary conditions of both kinds
+1 1 -1.0 -1 2 imp:n=1
+2 2 -2.7 -2 3 imp:n=1
+3 1 -1.00 -3 4 imp:n=1
+4 2 0.05 -4 imp:n=1
+5 0 1 imp:n=0
+
+*1 so 9
++2 so 7
+*3 px 1
++4 so 0.5
+
+m1 13027 1.
+m2 1001 2 8016 1
 """, []),
 ]
 
